@@ -18,6 +18,7 @@ From SWH.lib Require Import Bytes.
 From SWH Require Import Generated.
 From SWH.model Require Import Codec.
 From SWH.proofs Require Import CodecProofs CodecRoundtrip CodecLegacy.
+From SWH.proofs Require CodecExamples.
 Import ListNotations.
 
 (* The schema-generic codec.  For EVERY schema with distinct field names in
